@@ -733,6 +733,10 @@ func (env *CEnv) call(n *Node) cval {
 	case "bound":
 		// bound(closure, "name"): the value a closure captured for a free variable
 		v := env.eval(n.Kids[0])
+		if iv, isI := v.V.(*IfaceV); isI {
+			// a closure converted to a named function type held in an interface (http.HandlerFunc)
+			v = cval{V: iv.V, T: iv.Dyn}
+		}
 		cv, ok := v.V.(*ClosureV)
 		if !ok {
 			cfail("bound() of non-closure %s", showValue(v.V))
